@@ -16,8 +16,13 @@ TRUSTED = [
     "hand-written model lean/MorfuseModel/Archive/Model.lean (+ Value.lean) of src/Script/Archiver.cpp, "
     "Archive(Archiver&, str&) and ScriptVariable::ArchiveInternal, tied by the differential run "
     "(harness/archive.cpp on the real Archiver vs `driver archive`): archive bytes and read-back compared exactly",
-    "translator tools/vlib/archgen.py (regexes over Archiver.cpp -> Gen/ArchiveTable.lean: tag enum, constants, "
-    "Archive* call -> tag/width table, the reader switches)",
+    "translator tools/vlib/archgen.py (regexes over Archiver.cpp / StringDictionary.cpp -> Gen/ArchiveTable.lean: tag enum, "
+    "constants, Archive* call -> tag/width table, the reader switches, the two copies of the object size bracket, the "
+    "dictionary call of the load side)",
+    "hand-written models lean/MorfuseModel/Archive/Dict.lean (StringDictionary Add/Get as first-occurrence interning; the hash "
+    "table behind it is C17's) and Archive/Tables.lean (Container_archive.h, set_archive.h, Listener::Archive), tied by the "
+    "same differential run: archives are read back in a NEW ScriptContext; Listener tables in a two-pass run (the order of "
+    "the writer's table walk is taken from the real table, the model must reproduce bytes and read-back from it)",
     "g++ 12 / libstdc++ stream semantics, little-endian 64-bit target (sizeof(size_t) = sizeof(streamsize) = 8, unsigned = 4)",
 ]
 ASSUME = [
@@ -28,6 +33,10 @@ ASSUME = [
     "fewer than 2^32 - 654322 registered objects (an index then never equals ARCHIVE_NULL_POINTER)",
     "classes have single inheritance from AbstractClass (the table compares void* values)",
     "floats are 32/64-bit patterns; the bytes of a string may be anything including NUL",
+    "constant strings are NUL-free texts; an object record read with the polymorphic ReadObject() names a class whose "
+    "Archive() the reading host scripts (the harness's VNode/VNodf) or Listener",
+    "Listener tables: notify / wait-for / end lists (con::set<const_str, ConList>); ScriptVariableList (vars) and the "
+    "Array / Pointer / Container kinds of ScriptVariable are not modelled",
 ]
 
 
@@ -87,7 +96,7 @@ def first_value_diff(want, got):
             if a[1:3] != b[1:3]:
                 return "const-array-header"
             return walk([e for _, e in a[3]], [e for _, e in b[3]]) or "const-array"
-        if a[0] == "obj":
+        if a[0] in archgen.OBJ:
             return walk(a[3], b[3]) or "object"
         if a[0] == "s" and a[1] == b"" :
             return "empty-string-value:%s" % b[1].hex()
@@ -113,10 +122,119 @@ def fixed_cases(reg):
     t2 = [("obj", 1, b"VNode", [("op", 1), ("sp", 1), ("obj", 2, b"VNodf", [("op", 1), ("op", 3)]), ("sp", 3)]),
           ("pos", 3), ("op", 0), ("sp", 0), ("s", b""), ("s", b"\x00"), ("r", b""), ("p", "bool", 1)]
     t3 = []
+    # the three ways to read an object record back; constant strings that the loading dictionary has never seen,
+    # one it has (a predefined string), the same text twice
+    t4 = [("sp", 2), ("objp", 1, b"VNode", [("op", 1), ("objt", 2, b"VNodf", [("op", 1), ("sp", 3)]), ("p", "u32", 7)]),
+          ("objp", 3, L, [("p", "u8", 0)]), ("objt", 4, L, [("p", "u8", 0)]), ("op", 4), ("sp", 3),
+          ("v", 100001, ("k", b"c10 never seen before")), ("v", 100002, ("k", b"self")),
+          ("v", 100003, ("ca", 100004, 0, [(100005, ("k", b"c10 never seen before")), (100006, ("k", b"x"))]))]
     cases = []
-    for i, t in enumerate([t1, t2, t3]):
+    for i, t in enumerate([t1, t2, t3, t4]):
         cases.append(("fixed:%d" % i, [reg, archgen.arc_line((1, b"TEST", b"Morfuse test archive"), t)]))
     return cases
+
+
+# --------------------------------------------------------------------------------------------
+# Listener::Archive with its own tables (con::set<const_str, ConList>, Container<SafePtr<Listener>>)
+#
+# The order in which the writer walks a hash table is a fact of the real table, so this stage is two-pass: the harness
+# builds the listener from a list of insertions, prints the archive, the tables as the writer walks them and the tables
+# read back in a fresh script context; the model is then given the written view and must produce the same bytes
+# (listenerCalls / encode) and, with its data-directed reader (readListener), the same tables.
+
+def gen_lis(rng):
+    n = rng.choice([0, 1, 2, 3, 6, 12])
+    k = rng.randint(0, n)
+    nins = rng.choice([0, 1, 2, 3, 5, 8, 13, 21, 40])
+    keys = [bytes(rng.choice(archgen.TEXT) for _ in range(rng.randint(1, 10))) for _ in range(rng.choice([1, 2, 3, 6, 12, 30]))]
+    keys += [b"delete", b"remove", b"self"][:rng.randint(0, 3)]          # predefined strings of every dictionary
+    toks = ["lis", str(k), str(n)]
+    for _ in range(nins):
+        toks += [rng.choice("nnwe"), rng.choice(keys).hex(), str(rng.randint(0, n) if rng.random() < 0.9 else 0)]
+    return " ".join(toks)
+
+
+def norm_view(v):
+    """a view with the entries of every table sorted by key (the read-back order is the reader's own)"""
+    out = []
+    for tab in v.split(" ; "):
+        t = tab.split(" ")
+        if t == ["-"]:
+            out.append(None)
+            continue
+        hdr, es, i = tuple(int(x) for x in t[:4]), [], 4
+        while i < len(t):
+            c = int(t[i + 1])
+            es.append((t[i], tuple(int(x) for x in t[i + 2:i + 2 + c])))
+            i += 2 + c
+        out.append((hdr, sorted(es)))
+    return out
+
+
+def tables_judge(spec, impl, model):
+    """None | (verdict, signature, why)"""
+    if impl.count(" | ") != 2:
+        return "violation", "tables:impl:" + impl[:40], "harness answer: " + impl[:200]
+    hx, wv, rb = impl.split(" | ")
+    if rb.startswith("err"):
+        return "violation", "tables:failed-read", "read-back of an intact Listener archive failed: " + rb
+    if norm_view(rb) != norm_view(wv):
+        return "violation", "tables:roundtrip", "tables read back differ from the tables written: `%s` vs `%s`" % (rb[:200], wv[:200])
+    if model is None:
+        return None
+    if " | " not in model:
+        return "diff", "diff:tables:model", "model answer: " + model[:200]
+    mh, mr = model.split(" | ")
+    if mh != hx:
+        return "diff", "diff:tables:bytes", "archive bytes differ from the model's encoding of the written tables"
+    if norm_view(mr) != norm_view(rb):
+        return "diff", "diff:tables:readback", "implementation `%s`, proved model `%s`" % (rb[:200], mr[:200])
+    return None
+
+
+def tables_run(ctx, exe, reg, specs):
+    """-> list of (spec, verdict tuple or None), stats"""
+    out, crash, info = archgen.run_impl(exe, [reg] + specs, timeout=300)
+    res = []
+    if crash is not None:
+        i = max(len(out) - 1, 0)
+        res.append((specs[min(i, len(specs) - 1)], ("violation", crash, "implementation crashed / sanitizer report: " + crash)))
+        return res
+    impl = out[1:]
+    mlines = []
+    for sp, a in zip(specs, impl):
+        t = sp.split(" ")
+        mlines.append("lisv %s %s %s" % (t[1], t[2], a.split(" | ")[1]) if a.count(" | ") == 2 else "lisv bad")
+    model = archgen.run_model(mlines)
+    for i, sp in enumerate(specs):
+        res.append((sp, tables_judge(sp, impl[i] if i < len(impl) else "<missing>", model[i] if i < len(model) else "<missing>")))
+    return res
+
+
+def tables_stage(ctx, exe, reg):
+    rng = ctx.rng("tables")
+    n = 200 if ctx.tier == "quick" else 6000
+    fixed = ["lis 0 0", "lis 1 1 n 78 1", "lis 1 3 n 666f6f 1 n 666f6f 2 n 626172 3 w 7a 0 e 64656c657465 3 n 6161 2 n 6262 1 n 6363 1"]
+    specs = fixed + [gen_lis(rng) for _ in range(n)]
+    bad, seen, hist = 0, set(), {"entries": 0, "tables": 0, "pointers": 0, "max_tableLength": 0}
+    for i in range(0, len(specs), 200):
+        for sp, j in tables_run(ctx, exe, reg, specs[i:i + 200]):
+            if j is None:
+                continue
+            bad += 1
+            if j[1] in seen:
+                continue
+            seen.add(j[1])
+            replay = common.save_replay(ctx, {
+                "property": "C10", "kind": "correspondence", "area": AREA, "lines": [sp], "verdict": j[0], "why": j[2],
+                "signature": j[1], "how_to_replay": "python3 tools/check.py C10 --replay <this file>"})
+            ctx.violations.append({"signature": j[1], "replay": replay, "why": j[2], "found_input": j[0] == "violation"})
+    for sp in specs:
+        t = sp.split(" ")[3:]
+        hist["pointers"] += len(t) // 3
+    ctx.oblige("Listener::Archive with tables: bytes and tables read back in a fresh context, real code == Tables model, "
+               "and read back == written (%d listeners)" % len(specs), bad == 0, "%d failing" % bad, reported=True)
+    return {"listeners": len(specs), "insertions": hist["pointers"]}
 
 
 def check(ctx):
@@ -125,7 +243,9 @@ def check(ctx):
     proofs_ok, _ = common.proof_side(ctx, PROPS_MODULE, PROPS_FILE)
     if ctx.stats.get("lake_build_ok"):
         archgen.cfg_obligations(ctx, d0["flags"], {
-            "valueStrFresh": "a loaded String value starts from an empty string (C10_value_roundtrip for empty strings)"},
+            "valueStrFresh": "a loaded String value starts from an empty string (C10_value_roundtrip for empty strings)",
+            "dictLoadAdds": "the load side of StringDictionary::ArchiveString interns the text read (Add), so that it denotes "
+                            "the archived text in any reading dictionary (C10_const_string_any_dictionary)"},
             "notes/C10-findings.md")
     if ctx.tier == "thorough":
         common.leanchecker(ctx, PROPS_MODULE)
@@ -149,7 +269,7 @@ def check(ctx):
         nwf += archgen.well_formed(items)
         maxobj = max(maxobj, len(archgen.registered(items)))
         count_kinds(items, hist)
-        batch.append(("random:%d" % i, [reg, archgen.arc_line(info, items)]))
+        batch.append(("random:%d" % i, [reg, archgen.arc_line(info, items)] + (["rsame"] if i % 4 == 0 else [])))
         if len(batch) == 100:
             bad += d.run_batch(batch)
             batch = []
@@ -162,6 +282,7 @@ def check(ctx):
     bad += d.run_batch(sweep)
     ctx.oblige("correspondence harness/archive.cpp (real Archiver) == Archive model: bytes and read-back of %d write sequences" % d.cases,
                bad == 0, "%d differing cases" % bad, reported=True)
+    tstats = tables_stage(ctx, exe, reg)
     s_items = archgen.gen_case(ctx.rng("sample"), 6, nobj=2)
     ctx.samples = [archgen.arc_line((1, b"MFUS", b"Morfuse Archive"), s_items)]
     cov = {
@@ -171,6 +292,7 @@ def check(ctx):
                 "(real Listener, two scripted subclasses whose Archive() runs nested calls incl. nested ArchiveObject and self "
                 "pointers), plain and safe pointers before/after/inside their targets, null pointers, position-only objects, "
                 "4% pointers to never-registered objects; distinct by SHA-1 of the lines",
+        "listener_tables": tstats,
         "item_histogram": hist, "well_formed_sequences": nwf, "max_registered_objects": maxobj,
         "model_answer_kinds": d.outkinds, "exhaustive": False,
     }
@@ -195,7 +317,7 @@ def count_kinds(items, hist):
         if it[0] in ("op", "sp") and it[1] == 0:
             k += ":null"
         hist[k] = hist.get(k, 0) + 1
-        if it[0] == "obj":
+        if it[0] in archgen.OBJ:
             hist["cls:" + it[2].decode()] = hist.get("cls:" + it[2].decode(), 0) + 1
             count_kinds(it[3], hist)
 
@@ -206,6 +328,13 @@ def replay(ctx, obj):
     exe = archgen.build(ctx)
     reg = archgen.class_registry(ctx, exe)
     lines = [reg] + [l for l in obj["lines"] if not l.startswith("classes")]
+    if any(l.startswith("lis ") for l in lines):
+        rc = 0
+        for sp, j in tables_run(ctx, exe, reg, [l for l in lines if l.startswith("lis ")]):
+            print("> %s\n  %s" % (sp[:300], "as the model says, read back == written" if j is None else "%s: %s" % (j[0], j[2])))
+            rc = rc or (1 if j else 0)
+        print("replay:", "still fails" if rc else "no difference")
+        return rc
     d = archgen.ADiff(ctx, Prop(), exe, AREA)
     d.base_timeout = 60
     impl, crash, info, model = d.both(lines)
